@@ -131,8 +131,17 @@ func runC09(c *eng.Ctx, tier string) {
 				if call == nil {
 					return false
 				}
-				_, isChk := d.checkers[eng.Callee(&call.Call)]
-				return isChk
+				if _, isChk := d.checkers[eng.Callee(&call.Call)]; isChk {
+					return true
+				}
+				// (a local helper that only hands on the check's verdict)
+				if ev := eng.ForwardedError(call); ev != nil {
+					if ic, _ := eng.TupleCall(ev); ic != nil {
+						_, isChk := d.checkers[eng.Callee(&ic.Call)]
+						return isChk
+					}
+				}
+				return false
 			}
 			for _, fn := range []*ssa.Function{g, m.Fn} {
 				start := ssa.Instruction(read)
